@@ -38,12 +38,18 @@ def cases(draw):
             text = text.replace(a, b)
         return text
 
+    def clean_name(text):
+        # header NAMES are also used in other letter cases (colliding proxy headers): no "cl" / "px" in any case may survive
+        import re
+
+        return re.sub(r"(?i)(c)(l)", r"\1-\2", re.sub(r"(?i)(p)(x)", r"\1-\2", text))
+
     caller_headers = draw(gen.header_list(max_size=4))
-    caller_headers = [[clean(n), f"CLH{i}-{clean(v)}"] for i, (n, v) in enumerate(caller_headers)]
+    caller_headers = [[clean_name(n), f"CLH{i}-{clean(v)}"] for i, (n, v) in enumerate(caller_headers)]
     proxy_headers = []
     if kind in ("http", "https"):
         proxy_headers = draw(gen.header_list(max_size=3))
-        proxy_headers = [[clean(n), f"PXH{i}-{clean(v)}"] for i, (n, v) in enumerate(proxy_headers)]
+        proxy_headers = [[clean_name(n), f"PXH{i}-{clean(v)}"] for i, (n, v) in enumerate(proxy_headers)]
         if caller_headers and draw(st.booleans()):
             n = caller_headers[draw(st.integers(0, len(caller_headers) - 1))][0]
             proxy_headers.insert(draw(st.integers(0, len(proxy_headers))), [draw(st.sampled_from([n, n.upper(), n.lower(), n.swapcase()])), "PXHc-collides"])
